@@ -23,7 +23,7 @@ def gen_cases(seed, prof, n, backends, times, stats):
             stats["generator_stuck"] += 1
             continue
         out.append(dict(id=f"{prof}:{seed}:{i}", sp=sp, src=sp.src(), sx=sp.sx(), man_src=man.src(), man_sx=stagegen.plain_sx(man),
-                        inputs=inputs, times=times, backends=backends, dup=stagegen.dup_binders(man), nmacros=len(sp.macros)))
+                        inputs=inputs, times=times, backends=backends, dup=False, nmacros=len(sp.macros)))
     return out
 
 
@@ -123,7 +123,7 @@ def main(ctx, args):
         "types are not modelled (type-id arguments of the lambda/letrec combinators are placeholders); literals carry the bits of their value",
         "the tree of the real expansion is read (a) from the compiler's own trace line `ast after stage-0 execution` and (b) from a replica of compile_and_execute_stage0 built from the public API; both must print the same text",
         "the meaning of an expanded tree is given by Model/Core.lean through the (unverified, exercised) reader Model/StageIO.lean::toCoreProg",
-        "known findings steer the generator: F2, F3, F11, F17 (no `if` inside tuple components), S1 (programs that bind one name twice in a function are compared implementation against implementation only)",
+        "known findings steer the generator: F2, F3, F11, F17 (no `if` inside tuple components), (S1, the block-scope leak, is repaired in /repo e02acb0: programs that bind one name twice are compared with the model like all others)",
     ]
     known = load_known("C09")
     if not extract(ctx):
@@ -230,7 +230,7 @@ def main(ctx, args):
                 man = stagegen.manual(q)
             except stagegen.Stuck:
                 return False
-            d = dict(c, sp=q, src=q.src(), sx=q.sx(), man_src=man.src(), man_sx=stagegen.plain_sx(man), dup=stagegen.dup_binders(man),
+            d = dict(c, sp=q, src=q.src(), sx=q.sx(), man_src=man.src(), man_sx=stagegen.plain_sx(man), dup=False,
                      nmacros=len(q.macros), id="shrink")
             d.pop("r", None)
             run_cases([d])
@@ -238,7 +238,7 @@ def main(ctx, args):
         try:
             q = sc.shrink_sprog(c["sp"], pred, 120)
             man = stagegen.manual(q)
-            d = dict(c, sp=q, src=q.src(), sx=q.sx(), man_src=man.src(), man_sx=stagegen.plain_sx(man), dup=stagegen.dup_binders(man), nmacros=len(q.macros))
+            d = dict(c, sp=q, src=q.src(), sx=q.sx(), man_src=man.src(), man_sx=stagegen.plain_sx(man), dup=False, nmacros=len(q.macros))
             d.pop("r", None)
             run_cases([d])
             return d if judge(d) else c
